@@ -117,7 +117,30 @@ def run_panic(rep, F, sets, floor, extra_rules=(), lemma_ok=None):
             if not located:
                 rep.bad("PANIC", key, s.sp, "site is mapped to a typed-tree node", "MIR site %s %s has no THIR node with the same span" % (s.kind, s.callee))
                 continue
-            res = panic.discharge(F, s, extra_rules)
+            res = None
+            if F.fns[s.fn].is_helper(tail=True):
+                # a small helper is inlined at its call sites: the site must be safe in every caller's context
+                copies = []
+                for g in sorted(R):
+                    if g == s.fn or F.fns[g].thir is None:
+                        continue
+                    if g not in cache:
+                        cache[g] = panic.index_by_span(F.fns[g])
+                    for node, path in cache[g].get(s.sp, []):
+                        if node.get("k") == s.node.get("k"):
+                            c = panic.Site(g, s.kind, s.callee, s.sp, s.detail, s.exp)
+                            c.node, c.path = node, path
+                            copies.append(c)
+                if copies:
+                    rs = [panic.discharge(F, c, extra_rules) for c in copies]
+                    if all(rs):
+                        res = (rs[0][0], rs[0][1] + " [checked in %d inlined cop%s of helper %s]" % (len(copies), "y" if len(copies) == 1 else "ies", s.fn))
+                    else:
+                        res = None
+                else:
+                    res = panic.discharge(F, s, extra_rules)
+            else:
+                res = panic.discharge(F, s, extra_rules)
             if res:
                 rule, why = res
                 per_rule[rule] = per_rule.get(rule, 0) + 1
@@ -199,7 +222,7 @@ def run(rep):
     import c07
     panic.LOCKSTEP_PAIR_IDS = {(r[1], r[0]) for r in c07.lockstep_roles(F).values()}
     panic.LOCKSTEP_OK = all(i.status == "discharged" for i in rep.instances if i.rule == "LOCKSTEP") and any(i.rule == "LOCKSTEP" for i in rep.instances)
-    R = run_panic(rep, F, ["LOAD"], floor=30, extra_rules=(d_tokens_index,))
+    R = run_panic(rep, F, ["LOAD"], floor=20, extra_rules=(d_tokens_index,))
     # ---------------------------------------------------------------- PROGRESS
     tk = F.fn("<std::string::String as tokeniser::Tokeniser>::tokenise")
     if tk is None:
@@ -300,6 +323,9 @@ def run(rep):
         ok = s == "fn($it, $right_binding_power) {let $left = parser::parse_nud(it)?; loop if let Option::Some(&$next) = <I>::peek(it) {{if (right_binding_power Ge Token::binding_power(next)) {break}; left = parser::parse_led(left, it)?}} else {break}; Result::Ok(left)}"
         rep.check(ok, "PROGRESS", "PROGRESS/parse_expr", pe.sp, "Pratt loop: peek; break or parse_led (consumes) ; no other cycle", s[:80])
     rep.floor("PROGRESS", 14)
+    if rep.tier == "thorough":
+        import poscontrol
+        poscontrol.panics(rep)
     rep.exhaustive = True
     rep.assumptions.append("native stack exhaustion and allocation failure are out of scope (nesting depth is bounded by the property)")
     rep.assumptions.append("termination of the parser's recursion (parse_nud re-parses a strictly shorter token vector) is argued, not checked")
